@@ -158,14 +158,29 @@ def run_record_replay_threads(case):
                     state['results'][wi].append(['exc', type(ex).__name__])
         ns['work'] = work
 
+        def main_calls(self, calls):
+            # the operation's own thread sends on aliases its workers use too, strictly before it starts them / after it
+            # joined them: the ordinals of one alias count the calls of the whole operation, whichever thread makes them
+            for c in calls:
+                try:
+                    v = getattr(self, 'send%d' % c['w'])(c['arg'])
+                    state['main_results'].append(['ret', list(v)])
+                except S.SchedAbort:
+                    raise
+                except BaseException as ex:
+                    state['main_results'].append(['exc', type(ex).__name__])
+        ns['main_calls'] = main_calls
+
         def execute(self):
             sch = state['sch']
+            self.main_calls(case.get('pre', []))
             ws = [S.CoopThread(sch, 'w%d' % wi, (lambda wi=wi, calls=calls: self.work(wi, calls)))
                   for wi, calls in enumerate(case['workers'])]
             for w in ws:
                 w.start()
             for w in ws:
                 w.join()
+            self.main_calls(case.get('post', []))
             return 'done'
         ns['execute'] = tr.operation()(execute)
         from harness import dyn
@@ -177,6 +192,7 @@ def run_record_replay_threads(case):
                           max_steps=100000, watchdog_s=30.0)
         state['sch'] = sch
         state['results'] = [[] for _ in case['workers']]
+        state['main_results'] = []
         box = []
 
         def main():
@@ -188,7 +204,7 @@ def run_record_replay_threads(case):
                 box.append(['exc', type(ex).__name__])
         sch.spawn('main', main)
         outcome = sch.run()
-        return outcome, box, state['results'], list(sch.choices)
+        return outcome, box, state['results'] + [state['main_results']], list(sch.choices)
     out1, box1, res1, ch1 = one_run(case['rand'], lambda: Op().execute())
     rid = cassette.get_last_recording_id()
     pb = {}
@@ -207,4 +223,7 @@ def gen_record_replay(rng):
     workers = []
     for _ in range(rng.choice([1, 2, 2, 3])):
         workers.append([{'site': rng.choice(['in', 'in', 'out']), 'arg': rng.randint(0, 4)} for _ in range(rng.randint(1, 3))])
-    return {'kind': 'threads', 'model': False, 'workers': workers, 'rand': rng.randrange(10 ** 9)}
+    nw = len(workers)
+    pre = [{'w': rng.randrange(nw), 'arg': rng.randint(5, 9)} for _ in range(rng.choice([0, 1, 1, 2]))]
+    post = [{'w': rng.randrange(nw), 'arg': rng.randint(5, 9)} for _ in range(rng.choice([0, 1, 1, 2]))]
+    return {'kind': 'threads', 'model': False, 'workers': workers, 'pre': pre, 'post': post, 'rand': rng.randrange(10 ** 9)}
